@@ -72,5 +72,78 @@ def plan_c20(tier, seed):
 
 FLOORS["C20"] = {"evaluations": 10_000_000, "distinct_nontrivial": 1000}
 
+# ----------------------------------------------------------------------------------------------
+prop("C02", level="exploration",
+     title="Guest address queries answer exactly according to the set of mapped regions",
+     technique="reference-model monitor: every address query of GuestMemoryMmap and of a second trait implementation (MockMemory, default methods only) compared with an interval-set model; small universe enumerated completely, large layouts boundary-sampled; Miri pass in the thorough tier",
+     rule="cases = (backend, layout, query, address, length). Exhaustive part: all layouts of 1..3 regions with sizes 1..4 inside [0,14) (8430 layouts) x 3 translations (at 0, ending at 2^64-2, ending at 2^64-1 [mock only]) x every address of the universe +-1 plus the opposite extreme x every length 0..16 plus usize::MAX, usize::MAX-1, 2^63. Random part: <=8 regions, sizes 1 B..1 MiB, holes 0 B..2^61, addresses at region edges +-2 and extremes, lengths from the boundary generator. distinct key = (backend, query, answer class, position of the address relative to the nearest region edge, length-vs-run class, layout shape); non-trivial = the address is at/next to a region edge or in a hole (keys for addresses strictly inside/above/below everything are counted separately as trivial)",
+     exhaustive_note="all 1..3-region layouts with region sizes 1..4 in a 14-byte universe, at three translations, all addresses and lengths of that universe",
+     assumptions=["the interval-set model (models/layout.rs, 60 lines) is the specification", "check_range(b,0) and get_slice(a,0) at an unmapped address are recorded but not judged (vacuous for an empty range)", "mmap-backed regions in this monitor are build_raw views of a PROT_NONE reservation: only pointers are compared, bytes are never touched"],
+     level_text="Complete enumeration of a small universe plus boundary-biased sampling of large layouts, with a model oracle on every answer; held-on-observed for the layouts/addresses actually queried.",
+     level_note="Trusts the 60-line interval model and the MockMemory backend's required methods (find_region linear scan, get_slice bounds check).",
+     design_ref="DESIGN.md §7 C02")
+
+
+@plan("C02")
+def plan_c02(tier, seed):
+    if tier == "quick":
+        return shards("std-debug", "c02", 16, ["seed=%d" % seed, "cases=320"], timeout=600)
+    runs = shards("std-debug", "c02", 16, ["seed=%d" % seed, "cases=20000", "width=16", "maxsize=5"], timeout=3000)
+    runs += shards("std-release", "c02", 8, ["seed=%d" % (seed + 77), "cases=20000", "noexh"], timeout=3000)
+    runs += shards("miri", "c02", 8, ["seed=%d" % seed, "cases=16", "width=7", "maxsize=3", "addrs=12"], timeout=3000)
+    return runs
+
+
+FLOORS["C02"] = {"judged_queries": 2_000_000, "distinct_nontrivial": 2000}
+
+# ----------------------------------------------------------------------------------------------
+prop("C09", level="exploration",
+     title="The page bitmap behaves as a set of page numbers under every operation sequence",
+     technique="reference-model monitor: AtomicBitmap (plus RefSlice/ArcSlice views, Option and unit bitmaps) stepped against a BTreeSet model with a full read-out of every observable after every operation; single operations enumerated completely on a small space, random operation sequences beyond; Miri pass in the thorough tier",
+     rule="cases = operation sequences on (byte_size, page_size). Exhaustive part: byte_size 0..20 x page in {1,2,3} x 4 structured initial states x every single operation with (start,len) in 0..22 x 0..22 (set/reset range), every bit index 0..22 (set/reset bit), get_and_reset, reset, clone. Random part: sizes {0,1,p-1,p,p+1,63p..65p,127p..129p,<=10^4}, pages {1,2,3,5,7,64,100,128,4096,>size}, 30..300 operations incl. enlarge, clone, nested slice_at views (RefSlice and ArcSlice) with wrapping offsets, ranges near usize::MAX. After every step: is_bit_set for 0..pages+130, is_addr_set/dirty_at at every page start/end and extremes, len, byte_size, clone().get_and_reset() words, clone independence. distinct key = (operation, page-size class, page-count class, range class, enlarge/clone depth); all keys non-trivial",
+     exhaustive_note="every single range/bit operation with arguments <= 22 from 4 structured states for byte_size <= 20 and page size 1..3",
+     assumptions=["BTreeSet model in mon_c09.rs is the specification (ranges running past usize::MAX saturate)"],
+     level_text="Model-based runtime oracle with full read-out after every step over an exhaustively enumerated small space and thousands of random sequences; held-on-observed.",
+     level_note="Trusts the BTreeSet model; sequential executions only (concurrency is C08).",
+     design_ref="DESIGN.md §7 C09")
+
+
+@plan("C09")
+def plan_c09(tier, seed):
+    if tier == "quick":
+        runs = shards("std-debug", "c09", 8, ["seed=%d" % seed, "cases=2400", "noexh"], timeout=600)
+        runs.append(Run("std-release", "c09", ["seed=%d" % seed, "cases=0"], timeout=600))
+        return runs
+    runs = shards("std-debug", "c09", 16, ["seed=%d" % seed, "cases=200000", "noexh"], timeout=3400)
+    runs.append(Run("std-release", "c09", ["seed=%d" % seed, "cases=0", "xbs=40"], timeout=3000))
+    runs += shards("miri", "c09", 8, ["seed=%d" % seed, "cases=48", "noexh", "maxops=40"], timeout=3000)
+    return runs
+
+
+FLOORS["C09"] = {"exhaustive_single_ops": 200_000, "distinct_nontrivial": 800}
+
+# ----------------------------------------------------------------------------------------------
+prop("C10", level="exploration",
+     title="Adding or removing a region yields a new valid map and leaves the old one intact",
+     technique="history monitor with a list model: from_arc_regions / insert_region / remove_region / clone / writes through shared regions; every map and region handle ever produced is kept alive and re-listed and fully re-read (library path and raw pointer) after every step; complete pairwise boundary grid; Miri pass in the thorough tier",
+     rule="cases = histories of 10..60 steps (insert with adjacency classes free/adjacent/gap-1/overlap-1/overlap-n/equal-start relative to an existing region, remove with exact/size+-1/start+-1/last-byte/absent arguments, construction from shuffled/duplicated/empty lists of shared Arcs, clone, write through a shared region, drop of maps and handles) from random starting layouts incl. 1-byte regions and regions next to 2^64. Grid part (enumerated completely): region lengths {1,2,7,4096}^2 x distance prev-end..next-start in {-2..2} x both list orders for construction and both insertion directions; GuestRegionMmap::new with base+size in 2^64-2..2^64+2. distinct key = (step kind, outcome/error variant, adjacency class, maps-alive bucket); all non-trivial",
+     exhaustive_note="pairwise boundary grid (4x4 lengths x 5 distances x 2 orders / 2 directions) and the base+size bound at 2^64",
+     assumptions=["list model in mon_c10.rs is the specification", "when a construction list is both unsorted and overlapping either error variant is accepted", "base+size == 2^64 is recorded, not judged"],
+     level_text="Model-based history monitor with frame checks over all live maps after every step; held-on-observed.",
+     level_note="Trusts the list model; byte patterns are unique per region id so that a wrong region is observable.",
+     design_ref="DESIGN.md §7 C10")
+
+
+@plan("C10")
+def plan_c10(tier, seed):
+    if tier == "quick":
+        return shards("std-debug", "c10", 8, ["seed=%d" % seed, "cases=16000"], timeout=600)
+    runs = shards("std-debug", "c10", 16, ["seed=%d" % seed, "cases=400000"], timeout=3400)
+    runs += shards("miri", "c10", 8, ["seed=%d" % seed, "cases=40", "maxsteps=25"], timeout=3000)
+    return runs
+
+
+FLOORS["C10"] = {"evaluations": 100_000, "distinct_nontrivial": 80}
+
 # properties that are (currently) not claimed, with the reason recorded in MANIFEST.json
 NOT_CLAIMED = {}
